@@ -146,6 +146,9 @@ def gen_field(rng, name, spec, env, nxt):
         return bytes([n]) + rng.bytes(n)
     if size == '*':
         return rng.bytes(rng.choice([0, 0, 1, 4, rng.below(24)]))
+    ov = env.get('overrides') or {}
+    if name in ov and isinstance(size, int) and size <= 4:
+        return (rng.choice(ov[name]) & ((1 << (8 * size)) - 1)).to_bytes(size, 'little')
     if size == 1 and nxt == 'addr_typed':
         return bytes([rng.choice([0, 0, 1, 1, 2, 3])])      # a valid AddressType
     if size == 2 and 'handle' in name:
@@ -446,6 +449,120 @@ def check_ctrl_case(ctx, sname, packets, burst, model_obs, record=True):
                 ctx.disagree('controller skeleton', {'situation': sname, 'cmd': packets[k].hex()},
                              sorted(allowed), [n_cs, n_cc])
     return bad
+
+
+# ---- (A2) stateful sequences within a command family
+FAMILIES = {
+    'ext_adv': r'Extended_Advertis|Advertising_Set|Maximum_Advertising_Data|Supported_Advertising_Sets|Extended_Scan_Response',
+    'legacy_adv': r'HCI_LE_Set_Advertising_|HCI_LE_Set_Scan_Response_Data|HCI_LE_Set_Random_Address|Advertising_Physical_Channel',
+    'scan': r'Scan_Parameters|Scan_Enable|Extended_Scan',
+    'periodic': r'Periodic',
+    'cis': r'CIG|CIS|ISO_Data_Path|BIG',
+    'conn': (r'Create_Connection|Disconnect|Connection_Update|Remote_Features|Enable_Encryption|Long_Term_Key|'
+             r'Accept_Connection|Reject_Connection|Remote_Name|Switch_Role|Sniff'),
+}
+# few values for the fields that carry the family's state, so that the commands of a sequence
+# meet on the same advertising set / connection / CIG, with every own-address type and both enables
+FAMILY_OVERRIDES = {
+    'advertising_handle': [0, 0, 1, 5], 'advertising_handles': [0, 0, 1, 5], 'own_address_type': [0, 1, 2, 3],
+    'enable': [0, 1, 1], 'advertising_enable': [0, 1, 1], 'le_scan_enable': [0, 1, 1], 'scan_enable': [0, 1, 2, 3],
+    'operation': [0, 1, 2, 3, 4], 'advertising_type': [0, 1, 2, 3, 4], 'cig_id': [0, 1], 'cis_id': [0, 1, 2],
+    'connection_handle': [1, 2, 3, 4, 0x0123], 'acl_connection_handle': [1, 2, 0x0123],
+    'cis_connection_handle': [2, 3, 4, 5], 'data_path_direction': [0, 1, 3], 'num_sets': [0, 1, 2],
+    'advertising_event_properties': [0x13, 0x00, 0x01, 0x10, 0x1D], 'primary_advertising_interval_min': [0, 0x20, 0xFFFFFF],
+}
+FAMILY_SITUATIONS = ['nolink', 'link0', 'link1', 'link1conn', 'link2conn']
+PROBE = bytes.fromhex('01091000')      # Read BD_ADDR: a later command must still be answered
+
+
+def family_classes():
+    import re
+    from bumble import hci
+    out = {}
+    for fam, rx in FAMILIES.items():
+        out[fam] = sorted(op for op, c in hci.HCI_Command.command_classes.items() if re.search(rx, c.__name__))
+    return out
+
+
+def gen_family_sequence(rng, fam, ops, classes):
+    from bumble import hci
+    env = {'handles': [1, 2, 3, 4], 'addresses': [ADDR_P2, ADDR_P3, ADDR_ABSENT, ADDR_CUT, RND_P2, '00:00:00:00:00:00'],
+           'overrides': FAMILY_OVERRIDES}
+    packets = []
+    for _ in range(rng.choice([4, 6, 8, 12])):
+        op = rng.choice(ops)
+        for _ in range(8):
+            cand = gen_command_bytes(rng, classes[op], env)
+            try:
+                hci.HCI_Packet.from_bytes(cand)
+                packets.append(cand)
+                break
+            except Exception:
+                continue
+    packets.append(PROBE)
+    return packets
+
+
+# deterministic sequences: every own-address type x with / without a random address for the set,
+# enable, re-enable, disable, remove / clear while enabled (extended and legacy advertising)
+def corpus_family_sequences():
+    from bumble import hci
+    seqs = []
+    for own in (0, 1, 2, 3):
+        for with_random in (False, True):
+            def params(h):
+                return hci.HCI_LE_Set_Extended_Advertising_Parameters_Command(
+                    advertising_handle=h, advertising_event_properties=0x13, primary_advertising_interval_min=0x20,
+                    primary_advertising_interval_max=0x20, primary_advertising_channel_map=7, own_address_type=own,
+                    peer_address_type=0, peer_address=hci.Address.ANY, advertising_filter_policy=0,
+                    advertising_tx_power=0, primary_advertising_phy=1, secondary_advertising_max_skip=0,
+                    secondary_advertising_phy=1, advertising_sid=0, scan_request_notification_enable=0)
+
+            def enable(on, hs):
+                return hci.HCI_LE_Set_Extended_Advertising_Enable_Command(
+                    enable=on, advertising_handles=hs, durations=[0] * len(hs),
+                    max_extended_advertising_events=[0] * len(hs))
+            seq = [params(1)]
+            if with_random:
+                seq.append(hci.HCI_LE_Set_Advertising_Set_Random_Address_Command(
+                    advertising_handle=1, random_address=hci.Address(RND_CUT)))
+            seq += [hci.HCI_LE_Set_Extended_Advertising_Data_Command(
+                        advertising_handle=1, operation=3, fragment_preference=0, advertising_data=bytes([2, 1, 6])),
+                    enable(1, [1]), enable(1, [1]), enable(0, [1]), enable(1, [1, 5]), params(5), enable(1, [5, 1]),
+                    hci.HCI_LE_Remove_Advertising_Set_Command(advertising_handle=1), enable(1, [1]),
+                    hci.HCI_LE_Clear_Advertising_Sets_Command(), enable(0, [])]
+            seqs.append(('ext_adv', [bytes(c) for c in seq] + [PROBE]))
+        legacy = [hci.HCI_LE_Set_Advertising_Parameters_Command(
+                      advertising_interval_min=0x20, advertising_interval_max=0x20, advertising_type=0,
+                      own_address_type=own, peer_address_type=0, peer_address=hci.Address.ANY,
+                      advertising_channel_map=7, advertising_filter_policy=0),
+                  hci.HCI_LE_Set_Advertising_Data_Command(advertising_data=bytes([2, 1, 6])),
+                  hci.HCI_LE_Set_Advertising_Enable_Command(advertising_enable=1),
+                  hci.HCI_LE_Set_Advertising_Enable_Command(advertising_enable=1),
+                  hci.HCI_LE_Set_Advertising_Enable_Command(advertising_enable=0),
+                  hci.HCI_LE_Set_Scan_Enable_Command(le_scan_enable=1, filter_duplicates=0),
+                  hci.HCI_LE_Set_Advertising_Enable_Command(advertising_enable=1)]
+        seqs.append(('legacy_adv', [bytes(c) for c in legacy] + [PROBE]))
+    return seqs
+
+
+def campaign_families(ctx, model_obs):
+    from bumble import hci
+    classes = dict(hci.HCI_Command.command_classes)
+    fams = family_classes()
+    rng = ctx.rng
+    k = 0
+    for fam, packets in corpus_family_sequences():
+        for sname in ('link0', 'link1', 'link1conn'):
+            ctx.count('A2.family.' + fam)
+            check_ctrl_case(ctx, sname, packets, False, model_obs)
+    for fam, ops in sorted(fams.items()):
+        for _ in range(ctx.n(12, 400)):
+            packets = gen_family_sequence(rng, fam, ops, classes)
+            sname = FAMILY_SITUATIONS[k % len(FAMILY_SITUATIONS)]
+            k += 1
+            ctx.count('A2.family.' + fam)
+            check_ctrl_case(ctx, sname, packets, False, model_obs)
 
 
 def load_model_obs(ctx):
@@ -1746,6 +1863,10 @@ def regen(ctx):
     ptext, prows = c03_procshape.translate()
     ctx.write_gen('C03ProcShape', ptext)
     ctx.extra['B_host_shape'] = hinfo
+    from translate import c03_synccalls
+    stext, srows = c03_synccalls.translate()
+    ctx.write_gen('C03SyncCalls', stext)
+    ctx.extra['A_sync_may_raise_pairs'] = [[h, q] for h, _, hs in srows for q, r in hs if r]
     ctx.extra['C_functions_pinned'] = [n for n, _ in prows]
     rows = info['rows']
     ctx.extra['A_table'] = {
@@ -1821,6 +1942,7 @@ def run(ctx):
     campaign_proc_model(ctx)
     campaign_cis_model(ctx)
     campaign_ctrl(ctx, model_obs)
+    campaign_families(ctx, model_obs)
     campaign_host(ctx)
     campaign_host_all(ctx)
 
